@@ -64,7 +64,14 @@ def rule_rt1(A: Analysis, rep):
             rep.check(bool(gs) and all(need in c for c in gs), "RT1", "failure precedes %s" % kind, n.ast,
                       "reached only when returncode == 0", "%s is reachable although the task exited non-zero: [%s]" % (kind, " | ".join(fmt_conj(c) for c in gs)))
     rep.check(bool(ins) and bool(com), "RT1", "records exist", fi.node, "", "finish_execution no longer records a version (insert=%d commit=%d)" % (len(ins), len(com)), deep=False)
-    rep.expect_min("RT1", 5)
+    # args.json / options.json are Conductor's record of the finished run: written after the task exited (it cannot
+    # remove or replace them any more), in finish_execution
+    all_js = [(f, c) for (f, c) in A.all_calls_to("RunArguments.serialize_json", "RunOptions.serialize_json")]
+    rep.check(len(js) >= 2 and all(f.fq == fi.fq for f, _c in all_js), "RT1", "argument records are written after the task exited", fi.node,
+              "serialize_json(args/options) only in finish_execution",
+              "args.json/options.json are written in %s: a record written before the task runs can be deleted or replaced by the task, and the version is recorded all the same" % (
+                  sorted({f.fq.replace("conductor.", "") for f, _c in all_js if f.fq != fi.fq}) or "no place in finish_execution"))
+    rep.expect_min("RT1", 4)
 
 
 def rule_rt2(A: Analysis, rep):
